@@ -53,6 +53,7 @@ OutOfDomain(e) == \/ e.op = "save" /\ ~Saveable(obj)
                   \/ e.op = "tosm" /\ ~ToSMInDomain(obj, e.tmpl, e.ctmpl, e.beh)
                   \/ e.op = "countnotes" /\ ~CountInDomain(obj, e.j)
                   \/ e.op = "timenotes" /\ ~TimeNotesInDomain(obj, e.j)
+                  \/ e.op = "readtiming" /\ ~ReadTimingInDomain(obj, e.name)
                   \/ e.op = "writefile" /\ ~Saveable(obj)
                   \/ e.op = "mutatefile" /\ ~MutateInDomain(e.name, e.out, e.bak, e.edits)
 FsOps == {"writefile", "openfile", "mutatefile"}
